@@ -549,13 +549,14 @@ class TableTask(object):
         return results, meta
 
     def _solve(self, name, assumptions, goal, free, budget_ms):
-        s = z3.Solver()
-        s.set('timeout', int(budget_ms))
-        for a in assumptions:
-            s.add(a)
-        s.add(z3.Not(goal))
+        def mk():
+            sv = z3.Solver()
+            for a in assumptions:
+                sv.add(a)
+            sv.add(z3.Not(goal))
+            return sv
         t0 = time.time()
-        r = s.check()
+        r, s, _ = smt.check_trusted(mk, budget_ms)
         model = None
         if r == z3.unsat:
             verdict = Verdict.PROVED
